@@ -9,6 +9,9 @@ JUNK = ["x", "1", "def", "}", "{", "garbage garbage", "def x {", "return", ";", 
         "/* c */ x", "// c\nx", ",", "}}", "weighted 1", "else { return 1 weighted 1 }"]  # fmt: skip
 
 
+WRAPS = [("/*/", "/* */"), ("/*/", "*/"), ("/*/", "/*/"), ("/*", "/* */"), ("/*/", "/**/"), ("/**/", "*/"), ("/*/ /*/", "*/"), ("//*", "*/"), ("/*/", "// */\n")]
+
+
 def mutants(lexs, depth1=True):
     """yields (kind, text) for every depth-1 mutation of the lexeme list"""
     n = len(lexs)
@@ -30,6 +33,14 @@ def mutants(lexs, depth1=True):
                 yield "illegal-glued", J(lexs[: i - 1] + [lexs[i - 1] + c] + lexs[i:])
             if i < n:
                 yield "illegal-glued", J(lexs[:i] + [c + lexs[i]] + lexs[i + 1 :])
+    # a stretch of tokens wrapped in comment delimiters of unusual shape: what the comment hides is decided by the first `*/`
+    # after the opening `/*` (a `/*/` is an opening, not a whole comment)
+    for i in range(n):
+        for j in sorted({i + 1, i + 2, i + 4, n - 1, n} - set(range(i + 1))):
+            if j > n:
+                continue
+            for op, cl in WRAPS:
+                yield "comment-wrap", J(lexs[:i] + [op] + lexs[i:j] + [cl] + lexs[j:])
     base = J(lexs)
     for j in JUNK:
         yield "prefix", j + " " + base
